@@ -6,3 +6,5 @@ pub mod evaluate;
 pub mod game;
 pub mod input_handler;
 pub mod move_generator;
+#[cfg(chess_verif)]
+pub mod verif_hooks;
